@@ -14,10 +14,19 @@ let parse_peer s = match split_on ':' s with
   | [a; b] -> (nn (int_of_string a), nn (int_of_string b))
   | _ -> raise (Parse ("peer " ^ s))
 let parse_peers s = if s = "_" then [] else List.map parse_peer (split_on '/' s)
+let parse_bk s =
+  if s = "-" then None else
+  match split_on '#' s with
+  | [v; ks] -> Some (nn (int_of_string v), (if ks = "" then [] else List.map bytes_of_hex (split_on '/' ks)))
+  | _ -> raise (Parse ("buckets " ^ s))
+let show_bk b = match b with
+  | None -> "-"
+  | Some (v, ks) -> Printf.sprintf "%d#%s" (ni v) (String.concat "/" (List.map hex_of_bytes ks))
 let parse_desc s = match split_on ',' s with
-  | [id; st; en; ver; conf; peers; leader] ->
+  | id :: st :: en :: ver :: conf :: peers :: leader :: rest ->
       { d_id = nn (int_of_string id); d_start = bytes_of_hex st; d_end = bytes_of_hex en; d_ver = nn (int_of_string ver);
-        d_conf = nn (int_of_string conf); d_peers = parse_peers peers; d_leader = parse_peer leader }
+        d_conf = nn (int_of_string conf); d_peers = parse_peers peers; d_leader = parse_peer leader;
+        d_bk = (match rest with [b] -> parse_bk b | _ -> None) }
   | _ -> raise (Parse ("desc " ^ s))
 let parse_descs s = if s = "_" then [] else List.map parse_desc (split_on ';' s)
 let parse_verid s = match split_on ',' s with
@@ -37,9 +46,9 @@ let jn l = if l = [] then "_" else String.concat ";" l
 let show_dump c =
   let ents = List.map (fun r ->
     let fl = (if r.r_reload then 1 else 0) + (if r.r_pending then 4 else 0) + (if r.r_ready then 8 else 0) in
-    Printf.sprintf "%s,%s,%s,%d,%d,%d,%d,%s,%s" (show_verid (r_verid r)) (hex_of_bytes r.r_start) (hex_of_bytes r.r_end)
+    Printf.sprintf "%s,%s,%s,%d,%d,%d,%d,%s,%s,%s" (show_verid (r_verid r)) (hex_of_bytes r.r_start) (hex_of_bytes r.r_end)
       (int_of_nat r.r_work) (if r.r_expired then 1 else 0) (ni r.r_reason) fl (show_peers r.r_peers)
-      (String.concat "/" (List.map (fun x -> string_of_int (ni x)) r.r_sepochs))) c.c_sorted in
+      (String.concat "/" (List.map (fun x -> string_of_int (ni x)) r.r_sepochs)) (show_bk r.r_bk)) c.c_sorted in
   let regs = List.sort compare (List.map (fun (v, s) -> show_verid v ^ ">" ^ hex_of_bytes s) c.c_regions) in
   let lat = List.sort compare (List.map (fun (id, (v, cf)) -> Printf.sprintf "%d>%d,%d" (ni id) (ni v) (ni cf)) c.c_latest) in
   let se = List.sort compare (List.filter_map (fun (id, e) -> if ni e = 0 then None else Some (Printf.sprintf "%d>%d" (ni id) (ni e))) c.c_sepochs) in
@@ -48,13 +57,13 @@ let show_dump c =
 (* rebuild a model state from an implementation dump (used to resynchronise after a mismatch) *)
 let parse_dump ents regs lat ses =
   let ent s = match split_on ',' s with
-    | [id; ver; conf; st; en; work; exp; reason; fl; peers; eps] ->
+    | [id; ver; conf; st; en; work; exp; reason; fl; peers; eps; bk] ->
         let fl = int_of_string fl in
         { r_id = nn (int_of_string id); r_start = bytes_of_hex st; r_end = bytes_of_hex en; r_ver = nn (int_of_string ver);
           r_conf = nn (int_of_string conf); r_peers = parse_peers peers; r_work = nat (int_of_string work);
           r_expired = (exp = "1"); r_reason = nn (int_of_string reason);
           r_reload = (fl land 1 <> 0); r_pending = (fl land 4 <> 0); r_ready = (fl land 8 <> 0);
-          r_sepochs = (if eps = "" then [] else List.map (fun x -> nn (int_of_string x)) (split_on '/' eps)) }
+          r_sepochs = (if eps = "" then [] else List.map (fun x -> nn (int_of_string x)) (split_on '/' eps)); r_bk = parse_bk bk }
     | _ -> raise (Parse ("ent " ^ s)) in
   let reg s = match split_on '>' s with [v; st] -> (parse_verid v, bytes_of_hex st) | _ -> raise (Parse s) in
   let la s = match split_on '>' s with
@@ -128,6 +137,25 @@ let run_op (c : cache) (op : string) (args : string list) (qs : string list arra
                                            (fun x -> x.r_ready || bits land 8 <> 0)), 0)
        | None -> ("model: no such entry", c, 0))
   | "clear" -> ("ok", { empty_cache with c_sepochs = c.c_sepochs }, 0)
+  | "lbucket" ->
+      fin (find_region_by_key pd budget fuel t0 c (bytes_of_hex (a 0)) false)
+        (fun r -> match r with
+           | Err _ -> "err"
+           | Ok x ->
+               let v = ni (bk_ver x.r_bk) in
+               (match x.r_bk with
+                | None -> Printf.sprintf "ok %s v%d nobuckets" (show_loc x) v
+                | Some (_, keys) ->
+                    (match locate_bucket_full x.r_start x.r_end keys (bytes_of_hex (a 1)) with
+                     | None -> Printf.sprintf "ok %s v%d nil" (show_loc x) v
+                     | Some (bs, be) -> Printf.sprintf "ok %s v%d %s:%s" (show_loc x) v (hex_of_bytes bs) (hex_of_bytes be))))
+  | "bvnm" ->
+      (match parse_bk (a 1) with
+       | Some (ver, keys) -> ("ok", on_bucket_version_not_match c (parse_verid (a 0)) ver keys, 0)
+       | None -> ("model: bad buckets", c, 0))
+  | "ubuckets" ->
+      let (c1, t1) = update_buckets pd budget t0 c (parse_verid (a 0)) (nn (int_of_string (a 1))) (nn (int_of_string (a 2))) in
+      ("ok", c1, int_of_nat t1)
   | "sendfail" -> ("ok", on_send_fail c (parse_verid (a 0)) (nat (int_of_string (a 1))) (a 2 = "1"), 0)
   | "gc" -> ("ok", gc c, 0)
   | "uplead" ->
